@@ -287,10 +287,19 @@ def make_eval(exes):
                 env = dict(env0)
                 env["LBZIP2_VERIF_SCHED"] = ss
                 env["LBZIP2_VERIF_TRACE"] = tr
-                r = core.run(argv, env=env, stdin_file=inp, timeout=300)
+                r = core.run(argv, env=env, stdin_file=inp, timeout=120)
                 labels, tinfo = parse_trace(tr)
                 if si == 0 and tinfo["steps"]:
                     est = tinfo["steps"]
+                if r.timeout and not ss.startswith("serial"):
+                    # real threads, no exit within 120 s on an input that takes seconds: a hang if it does so three
+                    # times in a row (a single slow run is inconclusive)
+                    again = [core.run(argv, env=env, stdin_file=inp, timeout=120).timeout for _ in range(2)]
+                    if all(again):
+                        fail = {"shape": case["shape"], "n": case["n"], "scheds": [list(s)], "est": est,
+                                "variant": case["variant"], "sched": ss,
+                                "what": "no exit within 120 s in 3 consecutive free-running runs (hang)"}
+                        break
                 if r.timeout:
                     stats.inconclusive += 1
                     continue
@@ -355,7 +364,9 @@ def replay_case(case):
         env = dict(env0)
         env["LBZIP2_VERIF_SCHED"] = case["sched"]
         env["LBZIP2_VERIF_TRACE"] = os.path.join(td, "trace")
-        r = core.run([exe] + argv_tail + ["-n", str(case["n"])], env=env, stdin_file=inp, timeout=300)
+        r = core.run([exe] + argv_tail + ["-n", str(case["n"])], env=env, stdin_file=inp, timeout=120)
+        if r.timeout and "hang" in case.get("what", ""):
+            return dict(case)
         if r.timeout:
             return None
         labels, tinfo = parse_trace(env["LBZIP2_VERIF_TRACE"])
